@@ -28,7 +28,8 @@ FLOORS = {
               'kind:number-beyond': 60, 'kind:number-below': 60, 'kind:text': 20, 'kind:logical': 10,
               'kind:error': 10, 'kind:number-to-text': 30, 'kind:text-to-number': 10, 'not_implemented_cases': 30,
               'exception_cases': 30, 'other_reported_cells_checked': 100, 'tol:None': 100, 'tol:0.001': 100,
-              'outputs:chosen': 100, 'outputs:all': 100, 'prelude:noop-write': 40, 'prelude:read-input': 40, 'real_book_validations': 25},
+              'outputs:chosen': 100, 'outputs:all': 100, 'prelude:noop-write': 40, 'prelude:read-input': 40, 'real_book_validations': 25,
+              'workbooks_with_iterative_calculation_on': 30},
     'thorough': {'validate_calls': 12000, 'alterations': 8000, 'kind:logical': 300, 'kind:error': 300,
                  'not_implemented_cases': 600, 'exception_cases': 600},
 }
@@ -277,6 +278,10 @@ def run(ctx):
     while not ctx.out_of_time():
         i += 1
         spec, meta = wbgen.dag(rng, arrays=(i % 4 == 0), formula_ratio=0.65)
+        if i % 5 == 0:
+            # the same (acyclic) workbook saved with iterative calculation switched on
+            spec = dict(spec, calc={'iterate': True, 'count': 100, 'delta': 0.001})
+            ctx.count('workbooks_with_iterative_calculation_on')
         one_workbook(ctx, rng, spec, meta, 6)
 
 
